@@ -1,6 +1,886 @@
-pub fn gen(_seed: u64, _thorough: bool) -> Vec<String> {
-    vec![]
+//! C16 — generated mipmaps have the declared sizes and preserve flat colour and opacity.
+//!
+//! Case line:  `M <w> <h> <chan> <prec> <filter> <sa> <variant> <content> <seed>`
+//!   chan    g | a | rgb | rgba            prec  u8 | u16 | f32
+//!   filter  nearest | box | triangle | mitchell | lanczos3        sa  0 | 1 (resize_straight_alpha)
+//!   variant al (4-aligned, contiguous) | o1 | o2 | o3 (contiguous at buffer offset 1..3) | st (strided)
+//!   content const:<c0>:<c1>:<c2>:<c3> (raw samples: integers, f32 as bit patterns) | opaque | band |
+//!           noise | holes
+//!
+//! Result line (canonical, compared with the Lean model):
+//!   `ok n=<levels> sizes=<w>x<h>,... plan=<set>,<set>,... const=<v>:<v>..|-`
+//! `plan` = for every generated level the set of earlier images (0 = source, k = k-th generated level) whose
+//! resize with the same filter reproduces the level bit for bit (observed through an independent call of the
+//! `resize` crate); `*` when not observable (straight-alpha path). The model prints one index per level;
+//! tools/propcfg/C16.py `equal` demands that the index is a member of the observed set.
+//!
+//! Oracle (independent of the Lean model): see `run`.
+
+use crate::common::Rng;
+use dds::{
+    Channels, ColorFormat, Decoder, Encoder, Format, ImageView, ImageViewMut, Precision, ResizeFilter, Size,
+};
+
+#[derive(Clone, Copy, PartialEq, Eq, Debug)]
+pub enum Prec {
+    U8,
+    U16,
+    F32,
 }
-pub fn run(_line: &str) -> Option<(String, Vec<String>)> {
+impl Prec {
+    fn bytes(self) -> usize {
+        match self {
+            Prec::U8 => 1,
+            Prec::U16 => 2,
+            Prec::F32 => 4,
+        }
+    }
+    fn max_raw(self) -> u32 {
+        match self {
+            Prec::U8 => 255,
+            Prec::U16 => 65535,
+            Prec::F32 => 1.0f32.to_bits(),
+        }
+    }
+    fn name(self) -> &'static str {
+        match self {
+            Prec::U8 => "u8",
+            Prec::U16 => "u16",
+            Prec::F32 => "f32",
+        }
+    }
+    fn val(self, raw: u32) -> f64 {
+        match self {
+            Prec::F32 => f32::from_bits(raw) as f64,
+            _ => raw as f64,
+        }
+    }
+}
+
+/// Relative tolerance for f32 data: the resizer evaluates `sum w_i x_i` in binary32 with binary32 weights
+/// (each weight rounded once, each product and each partial sum rounded once, two passes). With at most
+/// 256 taps per axis (sizes <= 256) the standard bound is (256+2)*2^-24 per pass, < 2^-15 for both; the
+/// straight-alpha division adds two more roundings. 2^-13 leaves a factor 4 for the negative lobes of
+/// Mitchell/Lanczos (sum |w_i| < 2) in the constant-colour clause.
+const F32_REL: f64 = 1.0 / 8192.0;
+
+#[derive(Clone)]
+pub struct Img {
+    w: usize,
+    h: usize,
+    nch: usize,
+    prec: Prec,
+    /// interleaved raw samples (integers; f32 as bit patterns)
+    d: Vec<u32>,
+}
+impl Img {
+    fn at(&self, x: usize, y: usize, c: usize) -> u32 {
+        self.d[(y * self.w + x) * self.nch + c]
+    }
+    fn row_bytes(&self, y: usize, out: &mut Vec<u8>) {
+        for i in y * self.w * self.nch..(y + 1) * self.w * self.nch {
+            let v = self.d[i];
+            match self.prec {
+                Prec::U8 => out.push(v as u8),
+                Prec::U16 => out.extend_from_slice(&(v as u16).to_ne_bytes()),
+                Prec::F32 => out.extend_from_slice(&v.to_ne_bytes()),
+            }
+        }
+    }
+    fn from_bytes(w: usize, h: usize, nch: usize, prec: Prec, b: &[u8]) -> Img {
+        let n = w * h * nch;
+        let mut d = Vec::with_capacity(n);
+        for i in 0..n {
+            d.push(match prec {
+                Prec::U8 => b[i] as u32,
+                Prec::U16 => u16::from_ne_bytes([b[2 * i], b[2 * i + 1]]) as u32,
+                Prec::F32 => u32::from_ne_bytes([b[4 * i], b[4 * i + 1], b[4 * i + 2], b[4 * i + 3]]),
+            });
+        }
+        Img { w, h, nch, prec, d }
+    }
+}
+
+struct Cfg {
+    w: u32,
+    h: u32,
+    chan: Channels,
+    prec: Prec,
+    filter: ResizeFilter,
+    sa: bool,
+    variant: String,
+    content: String,
+    seed: u64,
+}
+
+fn chan_name(c: Channels) -> &'static str {
+    match c {
+        Channels::Grayscale => "g",
+        Channels::Alpha => "a",
+        Channels::Rgb => "rgb",
+        Channels::Rgba => "rgba",
+    }
+}
+fn nch(c: Channels) -> usize {
+    match c {
+        Channels::Grayscale | Channels::Alpha => 1,
+        Channels::Rgb => 3,
+        Channels::Rgba => 4,
+    }
+}
+/// index of the alpha channel, if the colour format has one
+fn alpha_index(c: Channels) -> Option<usize> {
+    match c {
+        Channels::Alpha => Some(0),
+        Channels::Rgba => Some(3),
+        _ => None,
+    }
+}
+fn filter_name(f: ResizeFilter) -> &'static str {
+    match f {
+        ResizeFilter::Nearest => "nearest",
+        ResizeFilter::Box => "box",
+        ResizeFilter::Triangle => "triangle",
+        ResizeFilter::Mitchell => "mitchell",
+        ResizeFilter::Lanczos3 => "lanczos3",
+        _ => "other",
+    }
+}
+const FILTERS: [ResizeFilter; 5] = [
+    ResizeFilter::Nearest,
+    ResizeFilter::Box,
+    ResizeFilter::Triangle,
+    ResizeFilter::Mitchell,
+    ResizeFilter::Lanczos3,
+];
+const CHANS: [Channels; 4] = [Channels::Grayscale, Channels::Alpha, Channels::Rgb, Channels::Rgba];
+const PRECS: [Prec; 3] = [Prec::U8, Prec::U16, Prec::F32];
+const VARIANTS: [&str; 5] = ["al", "o1", "o2", "o3", "st"];
+
+fn precision(p: Prec) -> Precision {
+    match p {
+        Prec::U8 => Precision::U8,
+        Prec::U16 => Precision::U16,
+        Prec::F32 => Precision::F32,
+    }
+}
+
+/// lossless target of each precision (single-channel targets where they exist)
+fn target(chan: Channels, prec: Prec) -> Format {
+    match (chan, prec) {
+        (Channels::Grayscale, Prec::U8) => Format::R8_UNORM,
+        (Channels::Alpha, Prec::U8) => Format::A8_UNORM,
+        (_, Prec::U8) => Format::R8G8B8A8_UNORM,
+        (Channels::Grayscale, Prec::U16) => Format::R16_UNORM,
+        (_, Prec::U16) => Format::R16G16B16A16_UNORM,
+        (Channels::Grayscale, Prec::F32) => Format::R32_FLOAT,
+        (_, Prec::F32) => Format::R32G32B32A32_FLOAT,
+    }
+}
+
+fn parse(line: &str) -> Option<Cfg> {
+    let t: Vec<&str> = line.split_whitespace().collect();
+    if t.len() != 10 || t[0] != "M" {
+        return None;
+    }
+    let w: u32 = t[1].parse().ok()?;
+    let h: u32 = t[2].parse().ok()?;
+    if w == 0 || h == 0 || w > 4096 || h > 4096 {
+        return None;
+    }
+    let chan = *CHANS.iter().find(|c| chan_name(**c) == t[3])?;
+    let prec = *PRECS.iter().find(|p| p.name() == t[4])?;
+    let filter = *FILTERS.iter().find(|f| filter_name(**f) == t[5])?;
+    let sa = match t[6] {
+        "0" => false,
+        "1" => true,
+        _ => return None,
+    };
+    if !VARIANTS.contains(&t[7]) {
+        return None;
+    }
+    let seed: u64 = t[9].parse().ok()?;
+    Some(Cfg { w, h, chan, prec, filter, sa, variant: t[7].into(), content: t[8].into(), seed })
+}
+
+fn const_colour(content: &str) -> Option<[u32; 4]> {
+    let p: Vec<&str> = content.split(':').collect();
+    if p.len() != 5 || p[0] != "const" {
+        return None;
+    }
+    let mut c = [0u32; 4];
+    for i in 0..4 {
+        c[i] = p[i + 1].parse().ok()?;
+    }
+    Some(c)
+}
+
+fn rand_sample(rng: &mut Rng, prec: Prec) -> u32 {
+    match prec {
+        Prec::U8 | Prec::U16 => {
+            let m = prec.max_raw() as u64;
+            match rng.below(10) {
+                0 => 0,
+                1 => m as u32,
+                _ => rng.below(m + 1) as u32,
+            }
+        }
+        Prec::F32 => match rng.below(12) {
+            0 => 0.0f32.to_bits(),
+            1 => 1.0f32.to_bits(),
+            // arbitrary mantissas in [2^-8, 1)
+            _ => ((1.0 + rng.below(1 << 23) as f32 / (1u32 << 23) as f32) / (2 << rng.below(8)) as f32).to_bits(),
+        },
+    }
+}
+
+fn make_image(c: &Cfg) -> Option<Img> {
+    let (w, h) = (c.w as usize, c.h as usize);
+    let n = nch(c.chan);
+    let mut rng = Rng::new(c.seed ^ 0xC16);
+    let mut d = vec![0u32; w * h * n];
+    let ai = alpha_index(c.chan);
+    if let Some(col) = const_colour(&c.content) {
+        if c.prec != Prec::F32 && col.iter().any(|v| *v > c.prec.max_raw()) {
+            return None;
+        }
+        if c.prec == Prec::F32 && col.iter().any(|v| !f32::from_bits(*v).is_finite()) {
+            return None;
+        }
+        for i in 0..w * h {
+            for k in 0..n {
+                d[i * n + k] = col[k];
+            }
+        }
+        return Some(Img { w, h, nch: n, prec: c.prec, d });
+    }
+    match c.content.as_str() {
+        "noise" | "opaque" | "holes" => {
+            for v in d.iter_mut() {
+                *v = rand_sample(&mut rng, c.prec);
+            }
+            if c.content == "opaque" {
+                if let Some(a) = ai {
+                    for i in 0..w * h {
+                        d[i * n + a] = c.prec.max_raw();
+                    }
+                }
+            }
+            if c.content == "holes" {
+                if let Some(a) = ai {
+                    // three random rectangles: transparent, opaque, transparent
+                    for r in 0..3 {
+                        let x0 = rng.below(w as u64) as usize;
+                        let y0 = rng.below(h as u64) as usize;
+                        let x1 = x0 + 1 + rng.below((w - x0) as u64) as usize;
+                        let y1 = y0 + 1 + rng.below((h - y0) as u64) as usize;
+                        for y in y0..y1.min(h) {
+                            for x in x0..x1.min(w) {
+                                d[(y * w + x) * n + a] = if r == 1 { c.prec.max_raw() } else { 0 };
+                            }
+                        }
+                    }
+                }
+            }
+        }
+        "band" => {
+            // every channel confined to its own interval, so that the range clause has teeth
+            for k in 0..n {
+                match c.prec {
+                    Prec::U8 | Prec::U16 => {
+                        let m = c.prec.max_raw() as u64;
+                        let lo = rng.below(m + 1);
+                        let width = match rng.below(4) {
+                            0 => 0,
+                            1 => 1,
+                            2 => rng.below(8),
+                            _ => rng.below(m + 1),
+                        };
+                        let hi = (lo + width).min(m);
+                        for i in 0..w * h {
+                            d[i * n + k] = rng.range(lo, hi) as u32;
+                        }
+                    }
+                    Prec::F32 => {
+                        let is_alpha = ai == Some(k);
+                        let scale = if is_alpha { 1.0 } else { [1.0f32, 1.0, 100.0, 0.01][rng.below(4) as usize] };
+                        let mut a = rng.below(1 << 20) as f32 / (1u32 << 20) as f32 * scale;
+                        let mut b = rng.below(1 << 20) as f32 / (1u32 << 20) as f32 * scale;
+                        if !is_alpha && rng.chance(1, 4) {
+                            a = -a;
+                        }
+                        if rng.chance(1, 4) {
+                            b = a;
+                        }
+                        let (lo, hi) = if a <= b { (a, b) } else { (b, a) };
+                        for i in 0..w * h {
+                            let t = rng.below(1 << 16) as f32 / 65535.0;
+                            let v = (lo + (hi - lo) * t).max(lo).min(hi);
+                            d[i * n + k] = v.to_bits();
+                        }
+                    }
+                }
+            }
+        }
+        _ => return None,
+    }
+    Some(Img { w, h, nch: n, prec: c.prec, d })
+}
+
+/// Encode `img` with mipmap generation through the public API, laid out in memory as `variant` says,
+/// and decode every level again. Err = short name of what went wrong.
+fn chain(img: &Img, c: &Cfg, variant: &str, seed: u64) -> Result<(Vec<Img>, usize), String> {
+    let color = ColorFormat::new(c.chan, precision(c.prec));
+    let format = target(c.chan, c.prec);
+    let bpr = img.w * img.nch * img.prec.bytes();
+    let (off, pitch) = match variant {
+        "al" => (0usize, bpr),
+        "o1" => (1, bpr),
+        "o2" => (2, bpr),
+        "o3" => (3, bpr),
+        // strided: row pitch = bytes per row + 1..11 extra bytes (odd extras misalign later rows), at an
+        // arbitrary buffer offset
+        _ => ((seed % 4) as usize, bpr + 1 + (seed / 4 % 11) as usize),
+    };
+    let len = pitch * (img.h - 1) + bpr;
+    // u32-aligned backing store
+    let mut store = vec![0xA5A5_A5A5u32; (off + len + pitch) / 4 + 2];
+    let bytes: &mut [u8] =
+        unsafe { std::slice::from_raw_parts_mut(store.as_mut_ptr() as *mut u8, store.len() * 4) };
+    debug_assert!(bytes.as_ptr() as usize % 4 == 0);
+    let mut row = Vec::with_capacity(bpr);
+    for y in 0..img.h {
+        row.clear();
+        img.row_bytes(y, &mut row);
+        let s = off + y * pitch;
+        bytes[s..s + bpr].copy_from_slice(&row);
+    }
+    let size = Size::new(img.w as u32, img.h as u32);
+    // strided views with a single row are contiguous by definition; keep the slice exact
+    let view = ImageView::new_with(&bytes[off..off + len], pitch, size, color).ok_or("err view")?;
+    let mut file: Vec<u8> = Vec::new();
+    {
+        let mut enc = Encoder::new_image(&mut file, size, format, true).map_err(|e| format!("err new {e:?}"))?;
+        enc.mipmaps.generate = true;
+        enc.mipmaps.resize_filter = c.filter;
+        enc.mipmaps.resize_straight_alpha = c.sa;
+        enc.write_surface(view).map_err(|e| format!("err write {e:?}"))?;
+        if !enc.is_done() {
+            return Err("err not-done".into());
+        }
+        enc.finish().map_err(|e| format!("err finish {e:?}"))?;
+    }
+    let file_len = file.len();
+    let mut dec = Decoder::new(std::io::Cursor::new(file)).map_err(|e| format!("err open {e:?}"))?;
+    if !dec.layout().is_texture() {
+        return Err("err layout".into());
+    }
+    let mut levels = Vec::new();
+    let mut data_bytes = 0usize;
+    while let Some(info) = dec.surface_info() {
+        let s = info.size();
+        let (lw, lh) = (s.width as usize, s.height as usize);
+        let mut buf = vec![0u8; lw * lh * img.nch * img.prec.bytes()];
+        let v = ImageViewMut::new(&mut buf, s, color).ok_or("err view-mut")?;
+        dec.read_surface(v).map_err(|e| format!("err read {e:?}"))?;
+        levels.push(Img::from_bytes(lw, lh, img.nch, img.prec, &buf));
+        data_bytes += lw * lh * (format_bpp(format));
+        if levels.len() > 40 {
+            return Err("err too-many-levels".into());
+        }
+    }
+    let header_len = file_len.checked_sub(data_bytes).ok_or("err file-shorter-than-levels")?;
+    Ok((levels, header_len))
+}
+
+fn format_bpp(f: Format) -> usize {
+    match f {
+        Format::R8_UNORM | Format::A8_UNORM => 1,
+        Format::R16_UNORM => 2,
+        Format::R8G8B8A8_UNORM | Format::R32_FLOAT => 4,
+        Format::R16G16B16A16_UNORM => 8,
+        _ => 16,
+    }
+}
+
+// ---------------------------------------------------------------------------------------------------------
+// observation of the generation plan through an independent call of the `resize` crate
+
+struct ChanF32;
+impl resize::PixelFormat for ChanF32 {
+    type InputPixel = f32;
+    type OutputPixel = f32;
+    type Accumulator = f32;
+    fn new() -> f32 {
+        0.0
+    }
+    fn add(&self, acc: &mut f32, inp: f32, coeff: f32) {
+        *acc += inp * coeff;
+    }
+    fn add_acc(acc: &mut f32, inp: f32, coeff: f32) {
+        *acc += inp * coeff;
+    }
+    fn into_pixel(&self, acc: f32) -> f32 {
+        acc
+    }
+}
+
+fn resize_type(f: ResizeFilter) -> resize::Type {
+    match f {
+        ResizeFilter::Nearest => resize::Type::Point,
+        ResizeFilter::Box => resize::Type::Custom(resize::Filter::box_filter(1.0)),
+        ResizeFilter::Triangle => resize::Type::Triangle,
+        ResizeFilter::Mitchell => resize::Type::Mitchell,
+        _ => resize::Type::Lanczos3,
+    }
+}
+
+/// every channel of `src` resized on its own (no straight alpha) to dw x dh
+fn ref_resize(src: &Img, dw: usize, dh: usize, filter: ResizeFilter) -> Option<Img> {
+    let mut out = Img { w: dw, h: dh, nch: src.nch, prec: src.prec, d: vec![0; dw * dh * src.nch] };
+    let mut r = resize::Resizer::new(src.w, src.h, dw, dh, ChanF32, resize_type(filter)).ok()?;
+    for c in 0..src.nch {
+        let plane: Vec<f32> = (0..src.w * src.h)
+            .map(|i| {
+                let raw = src.d[i * src.nch + c];
+                match src.prec {
+                    Prec::F32 => f32::from_bits(raw),
+                    _ => raw as f32,
+                }
+            })
+            .collect();
+        let mut dst = vec![0f32; dw * dh];
+        r.resize(&plane, &mut dst).ok()?;
+        for i in 0..dw * dh {
+            out.d[i * src.nch + c] = match src.prec {
+                Prec::U8 => (dst[i] + 0.5) as u8 as u32,
+                Prec::U16 => (dst[i] + 0.5) as u16 as u32,
+                Prec::F32 => dst[i].to_bits(),
+            };
+        }
+    }
+    Some(out)
+}
+
+fn observe_plan(levels: &[Img], filter: ResizeFilter) -> String {
+    let mut parts = Vec::new();
+    for k in 1..levels.len() {
+        let mut set = Vec::new();
+        for j in 0..k {
+            if let Some(r) = ref_resize(&levels[j], levels[k].w, levels[k].h, filter) {
+                if r.d == levels[k].d {
+                    set.push(j.to_string());
+                }
+            }
+        }
+        parts.push(if set.is_empty() { "none".to_string() } else { set.join("|") });
+    }
+    if parts.is_empty() {
+        "-".into()
+    } else {
+        parts.join(",")
+    }
+}
+
+// ---------------------------------------------------------------------------------------------------------
+
+fn expected_sizes(w: u32, h: u32) -> Vec<(u32, u32)> {
+    // declared by Header::with_mipmaps: levels until both dimensions have reached 1
+    let mut v = Vec::new();
+    let mut l = 0u32;
+    loop {
+        let (lw, lh) = ((w >> l).max(1), (h >> l).max(1));
+        v.push((lw, lh));
+        if lw == 1 && lh == 1 {
+            break;
+        }
+        l += 1;
+    }
+    v
+}
+
+pub fn run(line: &str) -> Option<(String, Vec<String>)> {
+    let c = parse(line)?;
+    let img = make_image(&c)?;
+    let mut oracle: Vec<String> = Vec::new();
+    let (levels, header_len) = match chain(&img, &c, &c.variant, c.seed) {
+        Ok(x) => x,
+        Err(e) => {
+            oracle.push(format!("generation failed: {e}"));
+            return Some((e, oracle));
+        }
+    };
+    let prec = c.prec;
+    let n = nch(c.chan);
+    let ai = alpha_index(c.chan);
+    let straight = c.sa && c.chan == Channels::Rgba;
+
+    // the observation is only sound if the target stores the colour format without loss
+    if levels.is_empty() || levels[0].d != img.d {
+        return Some(("err lossy-target".into(), oracle));
+    }
+
+    // (1) exactly the declared levels, sizes max(1, dim >> level), nothing else in the file
+    let exp = expected_sizes(c.w, c.h);
+    let got: Vec<(u32, u32)> = levels.iter().map(|l| (l.w as u32, l.h as u32)).collect();
+    if got != exp {
+        oracle.push(format!("levels: expected {:?}, file has {:?}", exp, got));
+    }
+    if header_len != 148 && header_len != 128 {
+        oracle.push(format!("levels: {header_len} bytes precede the level data (header is 128 or 148)"));
+    }
+
+    // (2) constant colour
+    let cc = const_colour(&c.content);
+    let mut const_tok = "-".to_string();
+    if let Some(col) = cc {
+        let transparent = straight && prec.val(col[3]) == 0.0;
+        let mut seen: Vec<Option<u32>> = vec![None; n];
+        let mut uniform = vec![true; n];
+        let mut near = vec![true; n];
+        for (li, l) in levels.iter().enumerate() {
+            for y in 0..l.h {
+                for x in 0..l.w {
+                    for k in 0..n {
+                        let v = l.at(x, y, k);
+                        // the result token describes the generated levels only
+                        if li > 0 {
+                            match seen[k] {
+                                None => seen[k] = Some(v),
+                                Some(s) => {
+                                    if s != v {
+                                        uniform[k] = false
+                                    }
+                                }
+                            }
+                        }
+                        let ok = match prec {
+                            Prec::F32 => {
+                                let (a, b) = (prec.val(v), prec.val(col[k]));
+                                (a - b).abs() <= F32_REL * b.abs()
+                            }
+                            _ => v == col[k],
+                        };
+                        if !ok {
+                            near[k] = false;
+                            // colour of fully transparent pixels is unconstrained
+                            if !(transparent && k < 3) && oracle.len() < 4 {
+                                oracle.push(format!(
+                                    "constant: level {li} pixel ({x},{y}) channel {k} is {} but the image is uniformly {}",
+                                    show(prec, v),
+                                    show(prec, col[k])
+                                ));
+                            }
+                        }
+                    }
+                }
+            }
+        }
+        if levels.len() > 1 {
+            const_tok = (0..n)
+                .map(|k| match prec {
+                    Prec::F32 if near[k] => col[k].to_string(),
+                    _ if uniform[k] => seen[k].unwrap_or(0).to_string(),
+                    _ => "varies".to_string(),
+                })
+                .collect::<Vec<_>>()
+                .join(":");
+        }
+    }
+
+    // (3) opacity
+    if let Some(a) = ai {
+        if (0..img.w * img.h).all(|i| img.d[i * n + a] == prec.max_raw()) {
+            'o: for (li, l) in levels.iter().enumerate() {
+                for y in 0..l.h {
+                    for x in 0..l.w {
+                        let v = l.at(x, y, a);
+                        let ok = match prec {
+                            Prec::F32 => (prec.val(v) - 1.0).abs() <= F32_REL,
+                            _ => v == prec.max_raw(),
+                        };
+                        if !ok {
+                            oracle.push(format!(
+                                "opaque: level {li} pixel ({x},{y}) alpha is {} in a fully opaque image",
+                                show(prec, v)
+                            ));
+                            break 'o;
+                        }
+                    }
+                }
+            }
+        }
+    }
+
+    // (5) range clause for the convex filters
+    if matches!(c.filter, ResizeFilter::Nearest | ResizeFilter::Box | ResizeFilter::Triangle) {
+        let mut lo = vec![f64::INFINITY; n];
+        let mut hi = vec![f64::NEG_INFINITY; n];
+        for i in 0..img.w * img.h {
+            for k in 0..n {
+                let v = prec.val(img.d[i * n + k]);
+                lo[k] = lo[k].min(v);
+                hi[k] = hi[k].max(v);
+            }
+        }
+        'r: for (li, l) in levels.iter().enumerate().skip(1) {
+            for y in 0..l.h {
+                for x in 0..l.w {
+                    let transparent = straight && prec.val(l.at(x, y, 3)) == 0.0;
+                    for k in 0..n {
+                        if transparent && k < 3 {
+                            continue;
+                        }
+                        let v = prec.val(l.at(x, y, k));
+                        let tol = match prec {
+                            Prec::F32 => F32_REL * lo[k].abs().max(hi[k].abs()),
+                            _ => 1.0,
+                        };
+                        if !(v >= lo[k] - tol && v <= hi[k] + tol) {
+                            oracle.push(format!(
+                                "range: level {li} pixel ({x},{y}) channel {k} is {} outside [{},{}] (+-{})",
+                                v, lo[k], hi[k], tol
+                            ));
+                            break 'r;
+                        }
+                    }
+                }
+            }
+        }
+    }
+
+    // (6) independence of buffer alignment and row pitch
+    if c.variant != "al" {
+        match chain(&img, &c, "al", c.seed) {
+            Ok((ref_levels, _)) => {
+                if let Some(m) = first_diff(&levels, &ref_levels, None) {
+                    oracle.push(format!("layout: variant {} differs from the aligned contiguous input at {m}", c.variant));
+                }
+            }
+            Err(e) => oracle.push(format!("layout: aligned reference run failed: {e}")),
+        }
+    }
+
+    // (4) channels are resized independently when straight-alpha handling is off
+    if !straight && n > 1 {
+        let mut rng = Rng::new(c.seed ^ 0x1DE9);
+        let k = rng.below(n as u64) as usize;
+        let mut other = img.clone();
+        for i in 0..img.w * img.h {
+            other.d[i * n + k] = rand_sample(&mut rng, prec);
+        }
+        match chain(&other, &c, &c.variant, c.seed) {
+            Ok((ol, _)) => {
+                if let Some(m) = first_diff(&levels, &ol, Some(k)) {
+                    oracle.push(format!("independent: changing only channel {k} of the input changed {m}"));
+                }
+            }
+            Err(e) => oracle.push(format!("independent: second run failed: {e}")),
+        }
+    }
+
+    let plan = if levels.len() <= 1 {
+        "-".to_string()
+    } else if straight {
+        vec!["*"; levels.len() - 1].join(",")
+    } else {
+        observe_plan(&levels, c.filter)
+    };
+    let sizes = got.iter().map(|(w, h)| format!("{w}x{h}")).collect::<Vec<_>>().join(",");
+    Some((format!("ok n={} sizes={} plan={} const={}", levels.len(), sizes, plan, const_tok), oracle))
+}
+
+fn show(p: Prec, raw: u32) -> String {
+    match p {
+        Prec::F32 => format!("{:e}(0x{:08x})", f32::from_bits(raw), raw),
+        _ => raw.to_string(),
+    }
+}
+
+/// first sample where two chains differ, ignoring channel `skip`
+fn first_diff(a: &[Img], b: &[Img], skip: Option<usize>) -> Option<String> {
+    if a.len() != b.len() {
+        return Some("the number of levels".into());
+    }
+    for (li, (x, y)) in a.iter().zip(b).enumerate() {
+        if x.w != y.w || x.h != y.h {
+            return Some(format!("the size of level {li}"));
+        }
+        for i in 0..x.d.len() {
+            if Some(i % x.nch) == skip {
+                continue;
+            }
+            if x.d[i] != y.d[i] {
+                let p = i / x.nch;
+                return Some(format!(
+                    "level {li} pixel ({},{}) channel {}: {} vs {}",
+                    p % x.w,
+                    p / x.w,
+                    i % x.nch,
+                    show(x.prec, x.d[i]),
+                    show(y.prec, y.d[i])
+                ));
+            }
+        }
+    }
     None
+}
+
+// ---------------------------------------------------------------------------------------------------------
+// generator
+
+fn const_content(rng: &mut Rng, prec: Prec, chan: Channels) -> String {
+    let mut col = [0u32; 4];
+    for k in 0..4 {
+        col[k] = match prec {
+            Prec::U8 | Prec::U16 => {
+                let m = prec.max_raw() as u64;
+                match rng.below(8) {
+                    0 => 0,
+                    1 => m as u32,
+                    2 => 1,
+                    3 => (m - 1) as u32,
+                    4 => (m / 2 + rng.below(2)) as u32,
+                    _ => rng.below(m + 1) as u32,
+                }
+            }
+            Prec::F32 => match rng.below(8) {
+                0 => 0.0f32.to_bits(),
+                1 => 1.0f32.to_bits(),
+                2 => 0.1f32.to_bits(),
+                3 => (1.0f32 / 3.0).to_bits(),
+                4 => (1.0f32 - f32::EPSILON / 2.0).to_bits(),
+                _ => rand_sample(rng, prec),
+            },
+        };
+    }
+    // alpha of a constant image: zero, tiny, full or arbitrary
+    if chan == Channels::Rgba {
+        col[3] = match (prec, rng.below(6)) {
+            (_, 0) => 0,
+            (Prec::F32, 1) => (1.0f32 / 256.0).to_bits(),
+            (_, 1) => 1,
+            (_, 2) => prec.max_raw(),
+            _ => col[3],
+        };
+    }
+    format!("const:{}:{}:{}:{}", col[0], col[1], col[2], col[3])
+}
+
+fn content(rng: &mut Rng, prec: Prec, chan: Channels) -> String {
+    match rng.below(8) {
+        0 | 1 => const_content(rng, prec, chan),
+        2 => "opaque".into(),
+        3 | 4 => "band".into(),
+        5 => "holes".into(),
+        _ => "noise".into(),
+    }
+}
+
+fn line(w: u32, h: u32, chan: Channels, prec: Prec, f: ResizeFilter, sa: bool, var: &str, content: &str, seed: u64) -> String {
+    format!(
+        "M {w} {h} {} {} {} {} {var} {content} {seed}",
+        chan_name(chan),
+        prec.name(),
+        filter_name(f),
+        sa as u8
+    )
+}
+
+pub fn gen(seed: u64, thorough: bool) -> Vec<String> {
+    let mut rng = Rng::new(seed ^ 0xC16C16);
+    let mut out = Vec::new();
+
+    // ---- size pool
+    let mut small: Vec<(u32, u32)> = Vec::new(); // all of 1..12 x 1..12
+    for w in 1..=12 {
+        for h in 1..=12 {
+            small.push((w, h));
+        }
+    }
+    let mut grid: Vec<(u32, u32)> = Vec::new(); // 1..40 x 1..40 (quick: sampled)
+    for w in 1..=40u32 {
+        for h in 1..=40u32 {
+            if w <= 12 && h <= 12 {
+                continue;
+            }
+            grid.push((w, h));
+        }
+    }
+    let mut pow2: Vec<(u32, u32)> = Vec::new();
+    for a in 0..=8 {
+        for b in 0..=8 {
+            pow2.push((1 << a, 1 << b));
+        }
+    }
+    // extreme aspect ratios, and sources that are not powers of two although all their mipmaps are
+    let extreme: Vec<(u32, u32)> = vec![
+        (1, 256), (256, 1), (3, 200), (200, 3), (1, 255), (255, 1), (2, 129), (129, 2), (1, 129), (257, 1), (1, 40),
+        (40, 1), (9, 9), (17, 17), (33, 33), (9, 5), (5, 9), (17, 8), (8, 17), (33, 4), (5, 16), (16, 5), (3, 2),
+        (65, 64), (64, 65), (129, 129), (5, 5), (3, 3), (9, 3), (17, 1), (1, 33), (33, 17), (255, 255), (100, 100),
+    ];
+
+    let any_cfg = |rng: &mut Rng| {
+        let chan = *rng.pick(&CHANS);
+        let prec = *rng.pick(&PRECS);
+        let f = *rng.pick(&FILTERS);
+        let sa = rng.chance(1, 2);
+        let var = *rng.pick(&VARIANTS);
+        (chan, prec, f, sa, var)
+    };
+
+    // ---- A. configuration sweep: 12 colour formats x 5 filters x alpha on/off x 5 layouts x contents
+    let reps = if thorough { 40 } else { 2 };
+    for _ in 0..reps {
+        for chan in CHANS {
+            for prec in PRECS {
+                for f in FILTERS {
+                    for sa in [false, true] {
+                        for var in VARIANTS {
+                            for ci in 0..5 {
+                                let (w, h) = match rng.below(4) {
+                                    0 => *rng.pick(&small),
+                                    1 => *rng.pick(&grid),
+                                    2 => *rng.pick(&pow2[..49]),
+                                    _ => *rng.pick(&extreme),
+                                };
+                                let cont = match ci {
+                                    0 => const_content(&mut rng, prec, chan),
+                                    1 => "opaque".to_string(),
+                                    2 => "band".to_string(),
+                                    3 => "holes".to_string(),
+                                    _ => "noise".to_string(),
+                                };
+                                out.push(line(w, h, chan, prec, f, sa, var, &cont, rng.next() >> 16));
+                            }
+                        }
+                    }
+                }
+            }
+        }
+    }
+
+    // ---- B. size sweep
+    let mut sizes: Vec<((u32, u32), u32)> = Vec::new(); // (size, configurations per size)
+    if thorough {
+        sizes.extend(small.iter().map(|s| (*s, 200)));
+        sizes.extend(grid.iter().map(|s| (*s, 120)));
+        sizes.extend(pow2.iter().map(|s| (*s, if s.0 * s.1 > 16384 { 40 } else { 150 })));
+        sizes.extend(extreme.iter().map(|s| (*s, 200)));
+    } else {
+        sizes.extend(small.iter().map(|s| (*s, 12)));
+        for _ in 0..700 {
+            sizes.push((*rng.pick(&grid), 2));
+        }
+        sizes.extend(pow2.iter().map(|s| (*s, if s.0 * s.1 > 16384 { 3 } else { 10 })));
+        sizes.extend(extreme.iter().map(|s| (*s, 16)));
+    }
+    for ((w, h), k) in sizes {
+        for _ in 0..k {
+            let (chan, prec, f, sa, var) = any_cfg(&mut rng);
+            let cont = content(&mut rng, prec, chan);
+            out.push(line(w, h, chan, prec, f, sa, var, &cont, rng.next() >> 16));
+        }
+    }
+    out
 }
